@@ -13,7 +13,8 @@ package c04
 //	rs a k          GetState(a,k) and GetCommittedState(a,k) -> one "view" entry tagged -(100a+k)
 //	fr body rev     Snapshot; body; RevertToSnapshot if rev
 //	pc sends fails  Snapshot; CacheCtxForPrecompile; SavePrecompileCalledJournalChange; CommitCacheCtx;
-//	                bank SendCoins(unibi) on the returned cache ctx for every send; RevertToSnapshot if
+//	                bank SendCoins(unibi) (odd amounts) or AccountToModule+ModuleToAccount through the evm module
+//	                (even amounts) on the returned cache ctx for every send; RevertToSnapshot if
 //	                fails (or if the per-tx call limit was hit)
 //
 // Observables: after StateDB.Commit the keeper's account / code / storage and the bank balance of every
@@ -296,9 +297,21 @@ func (r *runner) exec(ops []op) {
 				if s[2] <= 0 {
 					continue
 				}
-				// an insufficient balance fails inside SendCoins without any write
-				_ = r.deps.App.BankKeeper.SendCoins(cacheCtx, eth.EthAddrToNibiruAddr(addrOf(s[0])),
-					eth.EthAddrToNibiruAddr(addrOf(s[1])), sdk.NewCoins(sdk.NewCoin("unibi", sdkmath.NewInt(s[2]))))
+				from, to := eth.EthAddrToNibiruAddr(addrOf(s[0])), eth.EthAddrToNibiruAddr(addrOf(s[1]))
+				coins := sdk.NewCoins(sdk.NewCoin("unibi", sdkmath.NewInt(s[2])))
+				bk := r.deps.App.BankKeeper
+				// an insufficient balance fails inside the bank keeper without any write
+				if s[2]%2 == 0 {
+					// even amounts travel through the evm module account (as FunToken escrow moves do):
+					// the other two Sync-ing bank entry points
+					if err := bk.SendCoinsFromAccountToModule(cacheCtx, from, "evm", coins); err == nil {
+						if err := bk.SendCoinsFromModuleToAccount(cacheCtx, "evm", to, coins); err != nil {
+							r.obs.CommitErr = "module hop: " + err.Error()
+						}
+					}
+				} else {
+					_ = bk.SendCoins(cacheCtx, from, to, coins)
+				}
 			}
 			if o.Flag {
 				db.RevertToSnapshot(snap)
